@@ -598,6 +598,20 @@ fn run_with<P: Payload + Clone>(args: &[String]) -> i32 {
                 eprintln!("harness: fast-forward failed: {}", e);
                 return 2;
             }
+            if seed % 2 == 0 {
+                // plain remove / new_node cycles: the storage stays exactly full (4 of 4) until the slot is used up; the
+                // allocations that follow must open new slots and never hand out an id of the used-up one again
+                r.churn(last, 60, 0, false);
+                for _ in 0..6 {
+                    let v = r.next_val;
+                    r.next_val += 1;
+                    r.call(&Call { op: "new".into(), a: 0, b: 0, v, checked: false, r: vec![] });
+                }
+                r.drive("recycle", 60, 10);
+                r.out.flush().unwrap();
+                println!("{}", json!({"events": r.events, "out": out, "seed": seed, "mix": mix}));
+                return 0;
+            }
             // the last generations go away through remove_subtree, the slot having a left sibling and a child each time
             // (a slot that is retired instead of recycled must be left as bare as any other removed slot)
             r.call(&Call { op: "append".into(), a: 1, b: 2, v: 0, checked: true, r: vec![] });
